@@ -474,6 +474,8 @@ def rule_K7(ctx: Ctx) -> None:
 
 
 RULES = [
+    Rule("C11.K8", lambda ctx: __import__("sa.rules.c04", fromlist=["x"]).rule_E2(ctx), floor=2,
+         doc="'returns the same mazes a fresh generation gives' rests on the re-seeding reload before every generation (C04.E2 re-judged)"),
     Rule("C11.K7", rule_K7, floor=1, doc="bounded semantic check of the cache protocol: from_config interpreted in abstract worlds of the cache file"),
     Rule("C11.K1", rule_K1, floor=3, doc="read failures fall through"),
     Rule("C11.K2", rule_K2, floor=2, doc="config check on every path; mismatch raises by default"),
